@@ -251,4 +251,44 @@ def cornerJac (pts : List V3) (n : Nat × Nat × Nat × Nat) : Rat :=
   let p (i : Nat) := pts.getD i V3.zero
   triple (p n.2.1 - p n.1) (p n.2.2.1 - p n.1) (p n.2.2.2 - p n.1)
 
+/-! ### small helpers of Props/C10.lean -/
+
+theorem length_insertSorted_not_mem (l : String) : ∀ ls : List String, l ∉ ls → (insertSorted l ls).length = ls.length + 1 := by
+  intro ls
+  induction ls with
+  | nil => intro _; rfl
+  | cons x xs ih =>
+    intro hn
+    have hx : l ≠ x := fun h => hn (by simp [h])
+    have hxs : l ∉ xs := fun h => hn (by simp [h])
+    unfold insertSorted
+    split
+    · simp
+    · simp only [hx, if_false, List.length_cons, ih hxs]
+
+theorem length_insertSorted_bounds (l : String) : ∀ ls : List String,
+    1 ≤ (insertSorted l ls).length ∧ (insertSorted l ls).length ≤ ls.length + 1 := by
+  intro ls
+  induction ls with
+  | nil => simp [insertSorted]
+  | cons x xs ih =>
+    unfold insertSorted
+    split
+    · simp
+    · split
+      · simp
+      · simp only [List.length_cons]; omega
+
+theorem cube_le_one (x : Rat) (h : x * x ≤ 1) : x ^ 3 ≤ 1 ∧ (x ^ 3 = 1 → x = 1) := by
+  have hx1 : x ≤ 1 := by nlinarith [sq_nonneg (x - 1), sq_nonneg (x + 1)]
+  have hq : 0 < 1 + x + x * x := by nlinarith [sq_nonneg (x + 1 / 2)]
+  constructor
+  · nlinarith [mul_nonneg (sub_nonneg.mpr hx1) (le_of_lt hq)]
+  · intro h3
+    have : (1 - x) * (1 + x + x * x) = 0 := by ring_nf; ring_nf at h3; linarith
+    rcases mul_eq_zero.mp this with h' | h'
+    · linarith
+    · exact absurd h' (ne_of_gt hq)
+
+
 end CBV.C10
